@@ -14,9 +14,10 @@ from pyvc.npx import X, exact, val, vals, xarr
 from pyvc.symx import Explorer, zv
 
 META = {
-    "level_text": "Deductive: (1) _detect_crossing is proved against the documented rule for the four sections over symbolic "
-                  "states: a crossing is reported iff f_old*f_new < 0 and the direction test on the conjugate variable (or its "
-                  "rate) holds, and then alpha = f_old/(f_old-f_new) lies in (0,1); the Hermite interpolant reproduces end "
+    "level_text": "Deductive: (1) _detect_crossing is proved for the four sections over symbolic states: a return is reported iff "
+                  "the section coordinate itself changes sign in the section's return direction - derived from the property, "
+                  "not from the code: seeds are lifted with a positive conjugate coordinate, so to first order q-sections are "
+                  "left upward and p-sections downward - and then alpha = f_old/(f_old-f_new) lies in (0,1); the Hermite interpolant reproduces end "
                   "values and end slopes; (2) enforce_section_coordinate zeroes exactly the section column without mutating "
                   "its input and plane_points_from_states selects the documented columns (symbolic arrays, four sections); the "
                   "points of the returned results must equal that projection of the returned states; (3) race freedom / "
